@@ -396,6 +396,51 @@ def zones(R, P):
             "the zone test compares %s / keys %s" % (sorted(consts - need), sorted(names)))
 
 
+def tm_conventions(R, P):
+    """FIELD-MAP/struct-tm conventions at every use: tm_year counts years since 1900 and tm_mon months since January.
+    Every plain read of tm_year in date_time.c is therefore adjusted by + 1900 before it is used as a calendar year
+    (leap-year tests, comparisons, output); building the field (x = x*10 + digit, -= 1900) is not a use."""
+    n, bad = 0, []
+    for f in P.functions_in(FILE):
+        adjusted, building = set(), set()
+        reads = []
+        for b in f.blocks.values():
+            for el in list(b.elems) + ([b.cond] if b.cond is not None else []):
+                for x in f.walk(el):
+                    if x["k"] == "bin" and x["op"] == "+":
+                        for i in (0, 1):
+                            o = RU.uncast(f, x["a"][i])
+                            while o is not None and o["k"] == "cast":
+                                o = f.d(o["a"][0])
+                            if o is not None and o["k"] == "member" and o["f"] == "tm_year" and f.is_const(x["a"][1 - i]) == 1900:
+                                adjusted.add(o["id"])
+                    if x["k"] == "bin" and x["op"] in ("=", "+=", "-=", "*="):
+                        l = f.d(x["a"][0])
+                        if l is not None and l["k"] == "member" and l["f"] == "tm_year":
+                            building.add(l["id"])
+                            for y in f.walk(x["a"][1], follow_refs=True):
+                                if y["k"] == "member" and y["f"] == "tm_year":
+                                    building.add(y["id"])
+                    if x["k"] == "member" and x["f"] == "tm_year":
+                        reads.append(x)
+        addr = set()
+        for b in f.blocks.values():
+            for el in b.elems:
+                for x in f.walk(el):
+                    if x["k"] == "un" and x["op"] == "addr":
+                        o = f.d(x["a"][0])
+                        if o is not None and o["k"] == "member" and o["f"] == "tm_year":
+                            addr.add(o["id"])
+        for x in reads:
+            if x["id"] in building or x["id"] in addr:
+                continue
+            n += 1
+            if x["id"] not in adjusted:
+                bad.append("%s:%d in %s()" % (FILE, x.get("loc", [0])[0], f.name))
+    R.check(n >= 1 and not bad, "FIELD-MAP", "tm_year-read-as-calendar-year-only-plus-1900", FILE, "every plain read of tm_year is adjusted by + 1900 (%d reads)" % n,
+            "tm_year (years since 1900) is used without the + 1900 adjustment at %s: a calendar rule applied to it (leap years: %% 400) is shifted - 29 February 2000 is treated as impossible" % bad)
+
+
 def analyse(ctx, replace=None, only=None):
     R = ctx.R
     units_ = [u for u in library_units(ctx.ex.repo) if "external" not in u]
@@ -404,6 +449,7 @@ def analyse(ctx, replace=None, only=None):
         return
     month_table(R, P)
     field_map(R, P)
+    tm_conventions(R, P)
     offsets(R, P)
     format_table(R, P)
     units(R, P)
@@ -413,6 +459,7 @@ def analyse(ctx, replace=None, only=None):
 MUTANTS = [
     {"name": "jun-jul-swapped", "file": FILE, "expect": "MONTH-TABLE", "old": "    if (s_jun == comp_val) {\n        return 5;", "new": "    if (s_jul == comp_val) {\n        return 5;"},
     {"name": "key-from-wrong-name", "file": FILE, "expect": "MONTH-TABLE", "old": "        s_sep = STR_TRIPLET_TO_INDEX(\"sep\");", "new": "        s_sep = STR_TRIPLET_TO_INDEX(\"set\");"},
+    {"name": "leap-test-on-tm-year", "file": FILE, "expect": "FIELD-MAP", "old": "    if (dt->utc_assumed || seconds_offset) {\n        dt->timestamp = aws_timegm(&parsed_time);", "new": "    if (parsed_time.tm_mon == 1 && parsed_time.tm_mday == 29 && parsed_time.tm_year % 400 != 0 && parsed_time.tm_year % 100 == 0) {\n        return aws_raise_error(AWS_ERROR_INVALID_DATE_STR);\n    }\n    if (dt->utc_assumed || seconds_offset) {\n        dt->timestamp = aws_timegm(&parsed_time);"},
     {"name": "month-not-zero-based", "file": FILE, "expect": "FIELD-MAP", "old": "    parsed_time->tm_mon -= 1;\n", "new": ""},
     {"name": "year-accessor-off", "file": FILE, "expect": "FIELD-MAP", "old": "    return (uint16_t)(time->tm_year + 1900);", "new": "    return (uint16_t)(time->tm_year + 1970);"},
     {"name": "iso-offset-sign-inverted", "file": FILE, "expect": "OFFSET", "old": "(negative_offset ? -1 : 1);", "new": "(negative_offset ? 1 : -1);"},
